@@ -13,15 +13,15 @@ from fractions import Fraction
 
 PROPERTY = "C19"
 ALPHABET = []
-SPECIES = ["A", "B", "C"]
+SPECIES = ["A", "B", "C", "D"]
 
 META = dict(
     bounds=dict(
         quick="2 species x <=2 reactions, coefficients 0..2; 3 species x 2 reactions, coefficients 0..1; "
-              "2 species x 3 reactions, coefficients 0..1; hypergraph input and bipartite-graph input",
+              "2 species x 3 reactions, coefficients 0..1; product sides written in the opposite species order; every network of unimolecular conversions between 4 species (<=12 reactions); hypergraph input and bipartite-graph input",
         thorough="adds 3 species x 2 reactions with coefficients 0..2 and 3 species x 3 reactions with coefficients 0..1",
     ),
-    outside=["more than 3 species / 3 reactions, coefficients > 2", "check_deficiency_one / regularity / "
+    outside=["more than 3 species / 3 reactions apart from the unimolecular 4-species networks, coefficients > 2", "check_deficiency_one / regularity / "
              "nondegeneracy heuristics (not part of the property)"],
     stubs=[],
     assumptions=["every reaction has at least one non-empty side (the store rejects empty reactions)",
@@ -116,7 +116,7 @@ def h_deficiency(E, ns, nr, cmax, via):
     rxns = []
     for j in range(nr):
         r = {s: int(coef[j, "r", s]) for s in sp}
-        p = {s: int(coef[j, "p", s]) for s in sp}
+        p = {s: int(coef[j, "p", s]) for s in reversed(sp)}  # the product side is written in the opposite species order
         r = {k: v for k, v in r.items() if v > 0}
         p = {k: v for k, v in p.items() if v > 0}
         E.assume(bool(r) or bool(p))
@@ -147,7 +147,41 @@ def h_deficiency(E, ns, nr, cmax, via):
     E.observe((sm.n_complexes, sm.n_linkage_classes, sm.deficiency, bool(sm.weakly_reversible)))
 
 
-HARNESSES = {"deficiency": h_deficiency}
+def h_unimol(E, ns, via):
+    """all networks of unimolecular conversions i -> j between ns species (one solver-chosen bit per ordered pair): every
+    complex is a single species, so the complex graph is the conversion graph itself - linkage classes, weak reversibility
+    and deficiency on up to ns(ns-1) reactions."""
+    warnings.simplefilter("ignore")
+    from synkit.CRN.Hypergraph.hypergraph import CRNHyperGraph
+    from synkit.CRN.Hypergraph.conversion import hypergraph_to_bipartite
+    from synkit.CRN.Props.deficiency import DeficiencyAnalyzer
+
+    sp = SPECIES[:ns]
+    hg = CRNHyperGraph()
+    rxns = []
+    for i in range(ns):
+        for j in range(ns):
+            if i != j and bool(E.bool("a%d_%d" % (i, j))):
+                hg.add_rxn({sp[i]: 1}, {sp[j]: 1}, rule="r")
+                rxns.append(({sp[i]: 1}, {sp[j]: 1}))
+    E.assume(len(rxns) >= 1)
+    crn = hg if via == "hypergraph" else hypergraph_to_bipartite(hg)
+    an = DeficiencyAnalyzer(crn).compute_crn_deficiency()
+    sm = an.summary
+    o = oracle(hg.species, rxns)
+    info = dict(rxns=rxns, expected={k: o[k] for k in ("n_link", "weakly_reversible", "rank", "deficiency")},
+                got=dict(n_complexes=sm.n_complexes, n_link=sm.n_linkage_classes, wr=sm.weakly_reversible, rank=sm.stoich_rank,
+                         deficiency=sm.deficiency))
+    E.check(sm.n_complexes != len(o["complexes"]), "complexes", info)
+    E.check(sm.n_linkage_classes != o["n_link"], "linkage-classes", info)
+    E.check(bool(sm.weakly_reversible) != o["weakly_reversible"], "weak-reversibility", info)
+    E.check(sm.stoich_rank != o["rank"], "rank", info)
+    E.check(sm.deficiency != o["deficiency"] or sm.deficiency < 0, "deficiency", info)
+    E.note(nontrivial=len(rxns) >= 2)
+    E.observe((sm.n_complexes, sm.n_linkage_classes, sm.deficiency, bool(sm.weakly_reversible)))
+
+
+HARNESSES = {"deficiency": h_deficiency, "unimol": h_unimol}
 
 
 def shards(tier, seed):
@@ -156,6 +190,7 @@ def shards(tier, seed):
         dict(h="deficiency", params=dict(ns=2, nr=2, cmax=2, via="hypergraph")),
         dict(h="deficiency", params=dict(ns=3, nr=2, cmax=1, via="hypergraph")),
         dict(h="deficiency", params=dict(ns=2, nr=3, cmax=1, via="bipartite")),
+        dict(h="unimol", params=dict(ns=4, via="hypergraph")),
     ]
     if tier == "thorough":
         sh += [
